@@ -72,8 +72,37 @@ def r1(ctx):
                     ok = True
             else:
                 why = 'closure compares ' + (sh(cr, 160) if cr else '?')
-    if ok:
+    loop_form = None
+    if not ok and not finds:
+        # the same search as an explicit loop: `for x in MoveGen::new_legal(self) { if x == m { return true; } } false`
+        ls = for_loops(s)
+        if len(ls) == 1 and ls[0]['source'] is not None:
+            l = ls[0]
+            src_ = norm(l['source'])
+            itv_ = norm(s.exit[l['pre']].get(src_[1])) if (src_[0] == 'ref' and l['pre'] is not None and s.exit[l['pre']].get(src_[1]) is not None) else src_
+            while itv_[0] == 'call' and itv_[1].endswith('::into_iter') and itv_[2]:
+                itv_ = itv_[2][0]
+            E = norm(l['elem'])
+            trues, falses, odd = [], [], []
+            for st in return_sites(s):
+                v = norm(st['value'])
+                if v == ('int', 1, 'bool'):
+                    gs = [(norm(g['cond']), truth(g)) for g in guards(s, st['blk'], transitive=False) if g['cond'] is not None]
+                    eq_ok = any(c[0] == 'call' and c[1] == '<chess_move::ChessMove as core::cmp::PartialEq>::eq' and tv is True and
+                                set(map(repr, c[2])) == {repr(E), repr(('param', 2))} for c, tv in gs)
+                    (trues if (eq_ok and st['blk'] in l['blocks'] or eq_ok) else odd).append(st)
+                elif v == ('int', 0, 'bool'):
+                    falses.append(st)
+                else:
+                    odd.append(st)
+            if match(gen, itv_) is not None and len(trues) == 1 and not odd and falses and not break_exits(s, l):
+                loop_form = True
+            elif match(gen, itv_) is not None:
+                loop_form = False
+    if ok or loop_form:
         ctx.ok(R, 'legal(m) = MoveGen::new_legal(self) contains an item equal to m (whole ChessMove)', w)
+    elif loop_form is None and not finds and for_loops(s):
+        ctx.inconclusive(R, 'legal() searches with a loop this rule does not read: ' + why)
     else:
         ctx.violation(R, 'board::Board::legal', 'legal() is not membership of the whole move in MoveGen::new_legal(self): ' + why, w)
     # derived equality over all three fields
@@ -265,6 +294,13 @@ def r3_generic(ctx, key, piece, label, expect_pinned, pseudo_name):
     need = ['pinned', 'unpinned'] if expect_pinned else ['unpinned']
     have_unp = [l for l in info['loops'] if l[1] == 'unpinned']
     have_pin = [l for l in info['loops'] if l[1] == 'pinned']
+    adaptor = lambda x: any(isinstance(y, tuple) and y and y[0] == 'call' and isinstance(y[1], str) and
+                            y[1].startswith('core::iter::traits::iterator::Iterator::') and y[1].rsplit('::', 1)[-1] in ('map', 'filter', 'filter_map', 'flat_map', 'zip', 'chain')
+                            for y in walk(x) if isinstance(y, tuple))
+    if not have_unp and any(x[2] is not None and adaptor(x[2]) for x in info['loops']):
+        # `for (src, moves) in (pieces & !pinned).map(..).filter(..)`: the movers come out of an adaptor chain with closures
+        ctx.inconclusive(R, '%s: the source loop runs over an iterator-adaptor chain (map / filter with closures): not analysed' % label)
+        return
     if not have_unp:
         ctx.violation(R, key + ':unpinned-source', '%s: no loop over `pieces(P) & own & !pinned` (loop sources: %s)' % (
             label, [sh(x[2], 120) for x in info['loops']]), w)
@@ -445,10 +481,22 @@ def pawn_extra(ctx, key, info, piece):
         SRC = bb(l['elem'], an)
         if kind in ('unpinned', 'pinned'):
             want = call('<rank::Rank as core::cmp::PartialEq>::eq', call('square::Square::get_rank', SRC), call('color::Color::to_seventh_rank', STM))
-            if match(want, m['promo']) is not None:
+            promo_ = m['promo']
+            if promo_[0] == 'call' and '::{closure#' in promo_[1] and promo_[2] and promo_[2][0][0] == 'closure':
+                # `let is_promotion = |sq: Square| sq.get_rank() == color.to_seventh_rank();` -- the closure's value on its argument
+                try:
+                    args_ = tuple(promo_[2][1][1]) if len(promo_[2]) == 2 and promo_[2][1][0] == 'tuple' else tuple(promo_[2][1:])
+                    v_ = inliner(ctx).apply_closure(promo_[2][0], args_)
+                    if v_ is not None:
+                        promo_ = bb(v_, an)
+                except Exception:
+                    pass
+            if promo_[0] == 'call' and '::{closure#' in promo_[1]:
+                ctx.inconclusive(R, '%s: the promotion flag of pawn entries is computed by a closure that is not analysed (%s loop)' % (key, kind))
+            elif match(want, promo_) is not None:
                 ctx.ok(R, 'pawn entries are promotion entries iff the source is on the mover\'s seventh rank (%s loop)' % kind, where(body, c['line']))
             else:
-                ctx.violation(R, key + ':promotion-flag:' + kind, 'promotion flag of pawn entries is %s' % sh(m['promo'], 160), where(body, c['line']))
+                ctx.violation(R, key + ':promotion-flag:' + kind, 'promotion flag of pawn entries is %s' % sh(promo_, 160), where(body, c['line']))
         else:
             # en-passant entry
             EPO = ('field', B, 'en_passant')
